@@ -1,6 +1,6 @@
 (* Lemmas for C02 (Model/Slice.v). *)
 From PNC Require Import Base.Util Base.ArrFlat Model.Slice Proofs.ArrFlatProofs.
-From Coq Require Import Arith.
+From Coq Require Import Arith Permutation.
 Set Default Timeout 30.
 
 Section P.
@@ -347,6 +347,34 @@ Proof.
   - unfold zip_shape. rewrite !prodn_insert, prodn_nonlist. reflexivity.
 Qed.
 
+(* ---- element-wise meaning of the zipped selection ---- *)
+
+(* selectors `pre` (no list among them) before the first list: the zipped selection enumerates
+   the index tuples of `pre` in C order, under each the P points in order, and for each point
+   the orthogonal selection with every list replaced by its ii-th element *)
+Lemma zslice_elements P : forall pre sh rest d,
+  forallb (fun r => negb (is_list r)) pre = true ->
+  (exists l rest', rest = RList l :: rest') ->
+  length (pre ++ rest) = length sh ->
+  zslice P sh (pre ++ rest) d
+  = flat_map (fun idx =>
+      flat_map (fun ii => oslice sh (map RInt idx ++ pointify ii rest) d) (seq 0 P))
+      (cart (map rindices pre)).
+Proof.
+  induction pre as [|r pre IH]; intros sh rest d Hp [l [rest' ->]] Hl.
+  - destruct sh as [|n sh]; [discriminate|]. simpl. now rewrite app_nil_r.
+  - destruct sh as [|n sh]; [discriminate|]. simpl in Hp. apply andb_true_iff in Hp as [Hr Hp].
+    simpl in Hl. injection Hl as Hl.
+    assert (Hz : zslice P (n :: sh) ((r :: pre) ++ RList l :: rest') d
+                 = flat_map (fun i => zslice P sh (pre ++ RList l :: rest') (chunk (prodn sh) i d))
+                            (rindices r)).
+    { destruct r; try reflexivity. discriminate. }
+    rewrite Hz. cbn [map cart]. rewrite flat_map_flat_map. apply flat_map_ext. intros i.
+    rewrite flat_map_map. rewrite IH; [|exact Hp|eauto|exact Hl].
+    apply flat_map_ext. intros idx. apply flat_map_ext. intros ii.
+    cbn [map app oslice rindices flat_map]. now rewrite app_nil_r.
+Qed.
+
 (* ---- whole file ---- *)
 
 Lemma mapM_nth {B C} (f : B -> option C) x0 y0 : forall l r i,
@@ -446,6 +474,93 @@ Proof.
     apply lists_len_maps. intros j l' Hin E. symmetry. apply Nat.eqb_eq. apply E2.
     eapply resolve_dims_spec; [exact R|apply Hj; exact Hin|exact E].
   - rewrite slice_var by assumption. reflexivity.
+Qed.
+
+(* ---- keyword order ---- *)
+
+Lemma forallb_perm {B} (p : B -> bool) l l' : Permutation l l' -> forallb p l = forallb p l'.
+Proof.
+  intros H. induction H; simpl; try congruence.
+  destruct (p x), (p y); reflexivity.
+Qed.
+
+Definition alleq (l : list nat) : bool := forallb (Nat.eqb (hd 0 l)) l.
+
+Lemma alleq_spec l : alleq l = true <-> (forall x y, In x l -> In y l -> x = y).
+Proof.
+  unfold alleq. split.
+  - intros H x y Hx Hy. rewrite forallb_forall in H.
+    apply H in Hx. apply H in Hy. apply Nat.eqb_eq in Hx, Hy. congruence.
+  - intros H. apply forallb_forall. intros x Hx. apply Nat.eqb_eq.
+    destruct l as [|h t]; [contradiction|]. simpl. apply H; [now left|exact Hx].
+Qed.
+
+Lemma alleq_perm l l' : Permutation l l' -> alleq l = alleq l'.
+Proof.
+  intros H. destruct (alleq l) eqn:E, (alleq l') eqn:E'; try reflexivity.
+  - rewrite alleq_spec in E. assert (alleq l' = true); [|congruence].
+    apply alleq_spec. intros x y Hx Hy. apply E; eapply Permutation_in; try eassumption;
+      apply Permutation_sym; exact H.
+  - rewrite alleq_spec in E'. assert (alleq l = true); [|congruence].
+    apply alleq_spec. intros x y Hx Hy. apply E'; eapply Permutation_in; eassumption.
+Qed.
+
+Lemma alleq_hd l l' : Permutation l l' -> alleq l = true -> hd 0 l = hd 0 l'.
+Proof.
+  intros H E. rewrite alleq_spec in E.
+  destruct l as [|h t].
+  - apply Permutation_nil in H. now subst.
+  - destruct l' as [|h' t']; [apply Permutation_sym, Permutation_nil in H; discriminate|].
+    simpl. apply E; [now left|]. eapply Permutation_in; [apply Permutation_sym; exact H|now left].
+Qed.
+
+Lemma keys_inj {B} (l : list (nat * B)) p q :
+  NoDup (map fst l) -> In p l -> In q l -> fst p = fst q -> p = q.
+Proof.
+  induction l as [|x l IH]; intros Hn Hp Hq E; [contradiction|].
+  simpl in Hn. inversion Hn as [|? ? Hx Hn']; subst.
+  destruct Hp as [->|Hp], Hq as [->|Hq]; try reflexivity.
+  - exfalso. apply Hx. rewrite E. apply in_map. exact Hq.
+  - exfalso. apply Hx. rewrite <- E. apply in_map. exact Hp.
+  - apply IH; assumption.
+Qed.
+
+Lemma kwlookup_perm kws kws' k :
+  Permutation kws kws' -> NoDup (map fst kws) -> kwlookup kws k = kwlookup kws' k.
+Proof.
+  intros H Hn. unfold kwlookup.
+  assert (Hn' : NoDup (map fst kws')) by (eapply Permutation_NoDup; [apply Permutation_map; exact H|exact Hn]).
+  destruct (find (fun p => fst p =? k) kws) as [p|] eqn:F;
+    destruct (find (fun p => fst p =? k) kws') as [p'|] eqn:F'; try reflexivity.
+  - apply find_some in F as [Hi Hk]. apply find_some in F' as [Hi' Hk'].
+    apply Nat.eqb_eq in Hk, Hk'. f_equal. f_equal. apply (keys_inj kws'); try assumption.
+    + eapply Permutation_in; eassumption.
+    + congruence.
+  - apply find_some in F as [Hi Hk]. eapply find_none in F'; [|eapply Permutation_in; eassumption].
+    congruence.
+  - apply find_some in F' as [Hi Hk]. eapply find_none in F;
+      [|eapply Permutation_in; [apply Permutation_sym; exact H|exact Hi]]. congruence.
+Qed.
+
+(* the keyword order does not matter (keywords are distinct: Python keyword arguments) *)
+Lemma slice_file_kw_order fvar fzip (f : file A) kws kws' :
+  Permutation kws kws' -> NoDup (map fst kws) ->
+  slice_file_with fvar fzip f kws = slice_file_with fvar fzip f kws'.
+Proof.
+  intros H Hn. unfold slice_file_with.
+  rewrite (forallb_perm _ kws kws' H).
+  destruct (negb (forallb (fun p => fst p <? length (f_dims f)) kws')); [reflexivity|].
+  assert (Hll : Permutation (list_lens kws) (list_lens kws')) by (apply Permutation_flat_map; exact H).
+  rewrite <- (Permutation_length Hll).
+  assert (Hr : resolve_dims (f_dims f) kws = resolve_dims (f_dims f) kws').
+  { unfold resolve_dims. apply mapM_ext_in. intros jn _. now rewrite (kwlookup_perm kws kws' _ H Hn). }
+  rewrite Hr.
+  destruct (1 <? length (list_lens kws)) eqn:Eany; simpl.
+  - fold (alleq (list_lens kws)). fold (alleq (list_lens kws')).
+    rewrite <- (alleq_perm _ _ Hll).
+    destruct (alleq (list_lens kws)) eqn:Ea; simpl; [|reflexivity].
+    rewrite <- (alleq_hd _ _ Hll Ea). reflexivity.
+  - reflexivity.
 Qed.
 
 End P.
